@@ -20,7 +20,7 @@ RULE = (
     "1-2 channels are recorded live into the source with the real writers (RF files staged as tmp. then renamed, "
     "Digital Metadata appended between events); the canonical events (properties created, tmp created/modified, "
     "moved tmp->final, metadata created/modified) are perturbed by Hypothesis: duplicates, stale modified events, "
-    "events for vanished files, dropped events, replay of the whole history, start-up replay (the listing loop of "
+    "events for vanished files, dropped events, replay of the whole history, start-up replay (the mirror's own start() with the observer thread replaced by a no-op; every file its listing selects - the metadata file in force at the start time included - must reach the destination) (the listing loop of "
     "start() with match_time=False); method in {copy, move, link}, destination on the same or another file system, "
     "optional kind selection / time window, optionally one injected EIO on the n-th publishing rename. os.rename/link/remove/unlink/rmdir/makedirs and shutil.copyfile (split in "
     "two halves) are wrapped: at every such operation (i) any file under a final destination name equals a version its "
@@ -337,16 +337,38 @@ def _run(case, res, base, stage, src, dest, ev, drf, list_drf, mirror):
         def created(rel):
             dispatch(ev.FileCreatedEvent(os.path.join(src, rel)))
 
+        class _NoObserver:
+            """The harness owns the schedule: the real start() is run, but no observer thread is started."""
+
+            def start(self):
+                pass
+
+            def all_alive(self):
+                return True
+
+            def stop(self):
+                pass
+
+            def join(self, *a):
+                pass
+
+        mir.observer = _NoObserver()
+        startup_listed = set()  # data / metadata files the start-up listing selected (its forward-fill file included)
+
         def startup():
+            # the expectation comes from the listing (C14's subject); the events come from the mirror's own start()
             with contextlib.redirect_stdout(io.StringIO()):
                 paths = list(list_drf.ilsdrf(src, include_drf=False, include_dmd=False, include_drf_properties=case["include_drf"],
                                              include_dmd_properties=case["include_dmd"]))
-                paths += list(list_drf.ilsdrf(src, starttime=start, endtime=end, include_drf=case["include_drf"],
-                                              include_dmd=case["include_dmd"], include_drf_properties=False,
-                                              include_dmd_properties=False))
-            for p in paths:
+                more = list(list_drf.ilsdrf(src, starttime=start, endtime=end, include_drf=case["include_drf"],
+                                            include_dmd=case["include_dmd"], include_drf_properties=False,
+                                            include_dmd_properties=False))
+            for p in paths + more:
                 processed.add(os.path.relpath(p, src))
-                dispatch(ev.FileCreatedEvent(p), match_time=False)
+            for p in more:
+                startup_listed.add(os.path.relpath(p, src))
+            with contextlib.redirect_stdout(io.StringIO()), contextlib.redirect_stderr(io.StringIO()):
+                mir.start()
 
         md_count = {}
         for si, stp in enumerate(case["steps"]):
@@ -465,6 +487,7 @@ def _run(case, res, base, stage, src, dest, ev, drf, list_drf, mirror):
     # ---- end state
     sel = set()
     maybe = set()
+    ffill = set()
     for rel in processed:
         base_ = os.path.basename(rel)
         if base_ == "drf_properties.h5":
@@ -484,7 +507,9 @@ def _run(case, res, base, stage, src, dest, ev, drf, list_drf, mirror):
         ms = int(stamp.split(".")[0]) * 1000 + (int(stamp.split(".")[1]) if "." in stamp else 0)
         if (case["start"] is not None and ms < case["start"]) or (case["end"] is not None and ms > case["end"]):
             if not is_rf and case["start"] is not None and ms < case["start"]:
-                maybe.add(rel)  # start-up replay lists the forward-fill metadata file with match_time=False
+                # the metadata file in force at the start time: the start-up listing selects it and start() mirrors it
+                # whatever its own time stamp; a live event for it is outside the window
+                (ffill if rel in startup_listed else maybe).add(rel)
             continue
         sel.add(rel)
     present = set(_walk(dest)) if os.path.isdir(dest) else set()
@@ -498,6 +523,13 @@ def _run(case, res, base, stage, src, dest, ev, drf, list_drf, mirror):
         res.cls("injected-rename-fault")
     if tmpleft:
         res.fail("tmp-leftover:" + case["method"], "%s" % sorted(tmpleft)[:3])
+    ffill -= world.faulted
+    for rel in sorted(ffill - present):
+        res.fail("dest-missing-startup-listed:" + case["method"], "%s was selected by the start-up listing (metadata in force at the start time) but is not in the destination" % rel)
+    for rel in sorted(ffill & present):
+        if sha(os.path.join(dest, rel)) not in world.versions.get(rel, ()):
+            res.fail("dest-content:" + case["method"], "%s is no version the source file ever had" % rel)
+    maybe |= ffill
     missing = sel - present
     extra = present - set(p for p in present if os.path.basename(p).startswith("tmp.")) - set(history) - maybe
     if missing:
